@@ -139,11 +139,12 @@ def run(ctx):
                 "non-trivial = distinct tree with >= 2 children")
     ctx.trusted = ["spec/Lex.tla + spec/OData.tla (self-checked: TextRoundTrip theorems)", "harness/project.py"]
     keep = lambda r: r.get("k") == "case"
-    plans = [("atoms", 1), ("ops", 2)] if ctx.tier == "quick" else [("atoms", 2), ("ops", 3)]
+    # thorough: atoms with <= 3 nodes by simulation (exhaustive would be ~10^7), ops exhaustively with <= 2 plus simulation to 5
+    plans = [("atoms", 1), ("ops", 2)] if ctx.tier == "quick" else [("atoms", 1), ("atoms", 2), ("ops", 2), ("ops", 5)]
     for prof, m in plans:
-        if ctx.tier == "thorough" and (prof, m) == ("atoms", 2):
+        if ctx.tier == "thorough" and (prof, m) in (("atoms", 2), ("ops", 5)):
             # too large to export exhaustively: simulate
-            res = tlc.run("MC_C13", constants={"MaxOps": 3, "Profile": '"atoms"'}, simulate=4000, depth=12,
+            res = tlc.run("MC_C13", constants={"MaxOps": 3 if prof == "atoms" else 5, "Profile": '"%s"' % prof}, simulate=6000 // 16, depth=14,
                           seed=ctx.seed + 13, keep_lines=keep, check_count=False, timeout=3000)
         else:
             res = tlc.run("MC_C13", constants={"MaxOps": m, "Profile": '"%s"' % prof}, keep_lines=keep, timeout=3000)
